@@ -68,7 +68,10 @@ func genC19Lines(t *rapid.T) []string {
 	return lines
 }
 
-func (c C19Case) file(body []string) (src string, bodyStart int) {
+func (c C19Case) file(body []string) (src string, bodyStart int) { return c.fileUpTo(body, true) }
+
+// fileUpTo with closed=false ends the input right after the last body line: no closing lines, no final line break.
+func (c C19Case) fileUpTo(body []string, closed bool) (src string, bodyStart int) {
 	nl := "\n"
 	if c.CRLF {
 		nl = "\r\n"
@@ -78,26 +81,30 @@ func (c C19Case) file(body []string) (src string, bodyStart int) {
 		head = append(head, []string{"", "// header comment", "/* c */"}[i%3])
 	}
 	head = append(head, "{namespace ns.c19}", "", "/** @param p */", "{template .other}", "{$p}", "{/template}", "", "/**", " * @param a", " */", "{template .main}")
-	all := append(append(append([]string{}, head...), body...), "{if not $a}{$a}{/if}{/template}", "")
+	all := append(append([]string{}, head...), body...)
+	if closed {
+		all = append(all, "{if not $a}{$a}{/if}{/template}", "")
+	}
 	return strings.Join(all, nl), len(head) + 1 // 1-based line of the first body line
 }
 
 var c19Faults = []struct {
 	name, line string
-	single     bool // the error must be reported on exactly the fault line
+	single     bool   // the error must be reported on exactly the fault line
+	crit       string // the shortest prefix of the line after which the fault is certain
 }{
-	{"illegal character in a tag", "{$a # 1}", true},
-	{"stray closing brace in text", "oops } here", true},
-	{"unknown closing command", "{/foo}", true},
-	{"if without a condition", "{if}", true},
-	{"unexpected token in expression", "{$a + }", true},
-	{"bad number", "{12abc}", true},
-	{"error inside a quoted attribute expression", "{call .other data=\"$a +\" /}", true},
-	{"error inside a css expression", "{css $a +, base}", true},
-	{"error inside a quoted param value", "{call .other}{param key=\"p\" value=\"1 +\" /}{/call}", true},
-	{"unterminated string", "{'never closed}", false},
-	{"unterminated block comment", "/* never closed", false},
-	{"unterminated tag", "{if $a", false},
+	{"illegal character in a tag", "{$a # 1}", true, "{$a #"},
+	{"stray closing brace in text", "oops } here", true, "oops }"},
+	{"unknown closing command", "{/foo}", true, "{/foo}"},
+	{"if without a condition", "{if}", true, "{if}"},
+	{"unexpected token in expression", "{$a + }", true, "{$a + }"},
+	{"bad number", "{12abc}", true, "{12abc"},
+	{"error inside a quoted attribute expression", "{call .other data=\"$a +\" /}", true, "{call .other data=\"$a +\""},
+	{"error inside a css expression", "{css $a +, base}", true, "{css $a +,"},
+	{"error inside a quoted param value", "{call .other}{param key=\"p\" value=\"1 +\" /}{/call}", true, "{call .other}{param key=\"p\" value=\"1 +\""},
+	{"unterminated string", "{'never closed}", false, "{'never closed}"},
+	{"unterminated block comment", "/* never closed", false, "/* never closed"},
+	{"unterminated tag", "{if $a", false, "{if $a"},
 }
 
 var posRe = regexp.MustCompile(`:(\d+):(\d+)`)
@@ -156,6 +163,15 @@ func checkC19(c C19Case) Verdict {
 				return bad(true, "%v", err)
 			}
 			n++
+			// the same fault with the input ending right after the faulty line, and right after the
+			// part of it that makes the fault certain (the fault line is then the last line of the input)
+			for _, last := range []string{f.line, f.crit} {
+				cut, _ := c.fileUpTo(append(append([]string{}, c.Lines[:at]...), last), false)
+				if err := checkParseError(c.Name, cut, start+at, f.single, f.name+" (input ends after "+fmt.Sprintf("%q", last)+")"); err != nil {
+					return bad(true, "%v", err)
+				}
+				n++
+			}
 		}
 		if c19rec != nil {
 			c19rec.add("parse_fault_positions", n)
